@@ -469,7 +469,8 @@ refactor("c10-r-rename-loopvar", "C10", DISP, NOTIFY,
 refactor("c10-r-notify-helper", "C10", DISP,
          NOTIFY + "\n    def create_or_get_observer(",
          "        self._notify(scheduled_operation)\n\n    def _notify(self, scheduled_operation: ScheduledOperation) -> None:\n" + NOTIFY + "\n    def create_or_get_observer(")
-refactor("c10-r-hist-clear", "C10", HIST, "    def reset(self):\n        self.history = []", "    def reset(self):\n        self.history.clear()")
+mutant("c02-hist-clear", "C02", "R02.c", HIST, "    def reset(self):\n        self.history = []", "    def reset(self):\n        self.history.clear()",
+       "round-2 seed C02-t2TA: a history taken before reset is wiped by it")
 
 # ------------------------------------------------------------------ C01
 REW = "job_shop_lib/reinforcement_learning/_reward_observers.py"
